@@ -12,7 +12,8 @@
         propagated 4, comparison 5 (C20_rk*_order_conditions), and no more (C20_*_order_is_sharp);
         the documented "fifth order" of RungeKuttaFeldberg is REFUTED for the solution that is propagated
         (C20_rkf_documented_order5_refuted, C20_rkf_not_exact_on_degree_5);
-      - exactness on polynomial solutions of degree <= p, stability polynomial = exp through z^p, error estimate
+      - exactness on polynomial solutions of degree <= p (also for the cascade y' = g(t), z' = y, which exercises
+        the A matrix), stability polynomial = exp through z^p, error estimate
         exactly proportional to h^errOrder on the first degree it sees (Fehlberg: h^5, although errOrder = 4);
       - one-step formulas of explicit Euler, semi-explicit Euler (1 and 2), Verlet on constant / time-linear
         accelerations; cubic Hermite interpolation reproduces cubics and is C1;
@@ -251,6 +252,42 @@ Theorem C20_euler_one_step_consistency :
   fst r = y0 + h * f t0 y0 /\ snd r = h / 2 * (f t0 y0 - f (t0 + h) (fst r)).
 Proof. exact @euler_one_step_consistency. Qed.
 Print Assumptions C20_euler_one_step_consistency.
+
+Theorem C20_rk2_exact_on_cascade :
+  forall (t0 h y0 z0 : R) (cs : list R),
+  (length cs <= 1)%nat ->
+  forall i : bool,
+  fst (rk2_step ROps (VF ROps bool) (casc cs) t0 (t0 + h) (casc0 y0 z0) (casc cs t0 (casc0 y0 z0))) i =
+  casc_exact cs t0 h y0 z0 i.
+Proof. exact @rk2_exact_on_cascade. Qed.
+Print Assumptions C20_rk2_exact_on_cascade.
+
+Theorem C20_rk3_exact_on_cascade :
+  forall (t0 h y0 z0 : R) (cs : list R),
+  (length cs <= 2)%nat ->
+  forall i : bool,
+  fst (rk3_step ROps (VF ROps bool) (casc cs) t0 (t0 + h) (casc0 y0 z0) (casc cs t0 (casc0 y0 z0))) i =
+  casc_exact cs t0 h y0 z0 i.
+Proof. exact @rk3_exact_on_cascade. Qed.
+Print Assumptions C20_rk3_exact_on_cascade.
+
+Theorem C20_rkm_exact_on_cascade :
+  forall (t0 h y0 z0 : R) (cs : list R),
+  (length cs <= 3)%nat ->
+  forall i : bool,
+  fst (rkm_step ROps (VF ROps bool) (casc cs) t0 (t0 + h) (casc0 y0 z0) (casc cs t0 (casc0 y0 z0))) i =
+  casc_exact cs t0 h y0 z0 i.
+Proof. exact @rkm_exact_on_cascade. Qed.
+Print Assumptions C20_rkm_exact_on_cascade.
+
+Theorem C20_rkf_exact_on_cascade :
+  forall (t0 h y0 z0 : R) (cs : list R),
+  (length cs <= 3)%nat ->
+  forall i : bool,
+  fst (rkf_step ROps (VF ROps bool) (casc cs) t0 (t0 + h) (casc0 y0 z0) (casc cs t0 (casc0 y0 z0))) i =
+  casc_exact cs t0 h y0 z0 i.
+Proof. exact @rkf_exact_on_cascade. Qed.
+Print Assumptions C20_rkf_exact_on_cascade.
 
 Theorem C20_sxe_one_step_consistency :
   forall (t0 h q0 u0 z0 : R) (n : R -> R) (udot0 zdot0 : R),
